@@ -12,8 +12,8 @@
                 `BStmt e` (`A_of_B`, `paren_ft`);
   * `FTStmt e`  `parseExprFirstTerm` on a primary or unary expression; `B_of_FT`;
   * `okAfter e h` the follower `h` does not continue `e`: no access / call token (uniformly),
-                not an operator the rightmost open operand would take, not `?`, and not `:` after
-                a ternary (the `parseTernary` quirk);
+                not an operator the rightmost open operand would take, not `?` after a ternary or a `?:` (whose last
+                operand extends as far as possible);
   * the statements carry an explicit fuel bound (8 per token), so that the theorem holds for
                 the fuel `parseExprEntry` actually uses.
 -/
@@ -35,12 +35,22 @@ def noAccess (h : ItemType) : Prop :=
   h ≠ .tQuestionKey ∧ h ≠ .tLeftBracket ∧ h ≠ .tLeftParen
 
 def edgeOk : Expr → ItemType → Prop
-  | .tern .., h => isBinaryOp h = false ∧ h ≠ .tTernIf ∧ h ≠ .tColon
+  | .tern .., h => isBinaryOp h = false ∧ h ≠ .tTernIf
+  -- the right operand of `?:` is read with `parseExpr(0)`: it takes every operator and a `?`
+  | .bin .elvis .., h => isBinaryOp h = false ∧ h ≠ .tTernIf
   | .bin op .., h => isBinaryOp h = false ∨ precedence h + 1 ≤ binPrec op
   | _, _ => True
 
 /-- the token type `h` may follow an unparenthesised rendering of `e` -/
 def okAfter (e : Expr) (h : ItemType) : Prop := noAccess h ∧ edgeOk e h
+
+/-- a follower that stops the loop at level 0 may follow anything -/
+theorem edgeOk_of_stop {x : Expr} {h : ItemType} (h1 : isBinaryOp h = false) (h2 : h ≠ .tTernIf) : edgeOk x h := by
+  cases x with
+  | bin op _ _ _ => cases op <;> simp [edgeOk, h1, h2]
+  | tern => simp [edgeOk, h1, h2]
+  | _ => simp [edgeOk]
+
 
 section
 variable (pf : Bytes → Option UInt64)
@@ -181,9 +191,8 @@ theorem stops_rp (p : Nat) : Stops p tRP.typ := by
   rw [isBinaryOp_eq T]; rfl
 
 theorem okAfter_rp (e : Expr) : okAfter e tRP.typ := by
-  refine ⟨by simp [noAccess, tRP], ?_⟩
   have hb : isBinaryOp tRP.typ = false := by rw [isBinaryOp_eq T]; rfl
-  cases e <;> simp [edgeOk, hb] <;> simp [tRP]
+  exact ⟨by simp [noAccess, tRP], edgeOk_of_stop hb (by simp [tRP])⟩
 
 theorem paren_ft {e : Expr} (hB : BStmt pf e) (t0 : List Tk) (hR : Renders pf e t0) :
     ∀ (n : Nat) (rest : List Tk) (F : Nat) (st : PState),
@@ -349,38 +358,64 @@ theorem noAccess_tokOf (op : BinOp) : noAccess (tokOf op) := by
   cases op <;> simp [noAccess, tokOf]
 
 /-- the left operand of `op`, unparenthesised, may be followed by `op` -/
-theorem okAfter_left {a : Expr} {op : BinOp} (hp : binPrec op ≤ precedenceOf a) : okAfter a (tokOf op) := by
+theorem okAfter_left {a : Expr} {op : BinOp} (hp : leftMin op ≤ precedenceOf a) : okAfter a (tokOf op) := by
   refine ⟨noAccess_tokOf op, ?_⟩
-  cases a <;> simp [edgeOk]
-  case bin op1 _ _ _ =>
-    right; simp [precedenceOf] at hp; rw [prec_tokOf T]; exact hp
-  case tern => simp [precedenceOf, precTernary] at hp; have := binPrec_pos op; omega
+  have hge := leftMin_ge op
+  cases a with
+  | bin op1 _ _ _ =>
+    simp only [precedenceOf] at hp
+    have h1 := prec_tokOf T op
+    cases op1
+    case elvis =>
+      -- a `?:` on the left is below every left minimum
+      exfalso
+      have : 2 ≤ leftMin op := by cases op <;> decide
+      simp [binPrec, precElvis] at hp; omega
+    all_goals (simp only [edgeOk]; right; omega)
+  | tern => simp [precedenceOf, precTernary] at hp; have := binPrec_pos op; omega
+  | _ => simp [edgeOk]
 
 omit T in
 /-- the right operand of `op` inherits the follower of the whole expression -/
 theorem okAfter_right {a b : Expr} {op : BinOp} {p : Nat} {h : ItemType} (hok : okAfter (.bin op p a b) h)
-    (hp : binPrec op + 1 ≤ precedenceOf b) : okAfter b h := by
+    (hp : rightMin op ≤ precedenceOf b) : okAfter b h := by
   refine ⟨hok.1, ?_⟩
   have he := hok.2
-  simp [edgeOk] at he
-  cases b <;> simp [edgeOk]
-  case bin op1 _ _ _ =>
-    simp [precedenceOf] at hp
-    rcases he with he | he
-    · exact Or.inl he
-    · right; omega
-  case tern => simp [precedenceOf, precTernary] at hp
+  cases op
+  case elvis =>
+    simp only [edgeOk] at he
+    exact edgeOk_of_stop he.1 he.2
+  all_goals
+    simp only [edgeOk] at he
+    simp only [rightMin] at hp
+    cases b with
+    | bin op1 _ _ _ =>
+      simp only [precedenceOf] at hp
+      cases op1
+      case elvis => exfalso; simp [binPrec, precElvis, precOr, precAnd, precEquality, precCompare, precAdd, precMul] at hp
+      all_goals
+        simp only [edgeOk]
+        rcases he with he | he
+        · exact Or.inl he
+        · right; omega
+    | tern => simp [precedenceOf, precTernary] at hp
+    | _ => simp [edgeOk]
 
 omit T in
 theorem stops_right {a b : Expr} {op : BinOp} {p : Nat} {h : ItemType} (hok : okAfter (.bin op p a b) h) :
-    Stops (binPrec op) h := by
+    Stops (rightMin op - 1) h := by
   have he := hok.2
-  simp [edgeOk] at he
-  refine ⟨?_, fun h0 => ?_⟩
-  · rcases he with he | he
-    · exact Or.inl he
-    · right; omega
-  · have := binPrec_pos op; omega
+  cases op
+  case elvis =>
+    simp only [edgeOk] at he
+    exact ⟨Or.inl he.1, fun _ => he.2⟩
+  all_goals
+    simp only [edgeOk] at he
+    refine ⟨?_, fun h0 => ?_⟩
+    · rcases he with he | he
+      · exact Or.inl he
+      · right; simp only [rightMin, Nat.add_sub_cancel]; omega
+    · simp [rightMin, binPrec, precOr, precAnd, precEquality, precCompare, precAdd, precMul] at h0
 
 theorem stops_unary {h : ItemType} : Stops (precUnary - 1) h := by
   refine ⟨?_, fun h0 => by simp [precUnary] at h0⟩
@@ -388,17 +423,22 @@ theorem stops_unary {h : ItemType} : Stops (precUnary - 1) h := by
   | false => exact Or.inl rfl
   | true => right; have := binop_prec_lt T hb; omega
 
-theorem okAfter_cond {c : Expr} (hp : precElvis ≤ precedenceOf c) : okAfter c .tTernIf := by
+/-- the condition of a ternary, unparenthesised (not a `?:`, not a ternary), may be followed by `?` -/
+theorem okAfter_cond {c : Expr} (hp : precElvis + 1 ≤ precedenceOf c) : okAfter c .tTernIf := by
   refine ⟨by simp [noAccess], ?_⟩
   have hb : isBinaryOp .tTernIf = false := by rw [isBinaryOp_eq T]; rfl
-  cases c <;> simp [edgeOk, hb]
-  case tern => simp [precedenceOf, precTernary, precElvis] at hp
+  cases c with
+  | bin op _ _ _ =>
+    cases op
+    case elvis => simp [precedenceOf, binPrec, precElvis] at hp
+    all_goals simp [edgeOk, hb]
+  | tern => simp [precedenceOf, precTernary, precElvis] at hp
+  | _ => simp [edgeOk]
 
-theorem okAfter_colon {c : Expr} (hp : precElvis ≤ precedenceOf c) : okAfter c .tColon := by
-  refine ⟨by simp [noAccess], ?_⟩
+/-- anything may be followed by `:` -/
+theorem okAfter_colon (c : Expr) : okAfter c .tColon := by
   have hb : isBinaryOp .tColon = false := by rw [isBinaryOp_eq T]; rfl
-  cases c <;> simp [edgeOk, hb]
-  case tern => simp [precedenceOf, precTernary, precElvis] at hp
+  exact ⟨by simp [noAccess], edgeOk_of_stop hb (by simp)⟩
 
 theorem stops_colon (p : Nat) : Stops p .tColon := by
   refine ⟨Or.inl ?_, by simp⟩
@@ -406,16 +446,15 @@ theorem stops_colon (p : Nat) : Stops p .tColon := by
 
 omit T in
 theorem okAfter_else {c a b x : Expr} {p : Nat} {h : ItemType} (hok : okAfter (.tern p c a b) h) : okAfter x h := by
-  refine ⟨hok.1, ?_⟩
   have he := hok.2
-  simp [edgeOk] at he
-  cases x <;> simp [edgeOk, he]
+  simp only [edgeOk] at he
+  exact ⟨hok.1, edgeOk_of_stop he.1 he.2⟩
 
 omit T in
 theorem stops_else {c a b : Expr} {p : Nat} {h : ItemType} (hok : okAfter (.tern p c a b) h) : Stops 0 h := by
   have he := hok.2
-  simp [edgeOk] at he
-  exact ⟨Or.inl he.1, fun _ => he.2.1⟩
+  simp only [edgeOk] at he
+  exact ⟨Or.inl he.1, fun _ => he.2⟩
 
 /-! ### unary operators -/
 
@@ -470,12 +509,13 @@ theorem b_bin (op : BinOp) (pos : Nat) {a b : Expr} (hA : AStmt pf a) (hB : AStm
     simp [lvl, precedenceOf] at hp; omega
   have hst' : At st (ta ++ tOp op :: (tb ++ h :: rest)) := by simpa using hst
   simp at hF
-  refine hA (binPrec op) ta (tOp op) (tb ++ h :: rest) p (k + 2 + 8 * tb.length) F Q st hSa (by omega)
+  have hlm := leftMin_ge op
+  refine hA (leftMin op) ta (tOp op) (tb ++ h :: rest) p (k + 2 + 8 * tb.length) F Q st hSa (by omega)
     (fun hp => okAfter_left T hp) ?_ hst' (by omega)
   intro k' a' st1 hk' hea hst1
   obtain ⟨k'', rfl⟩ : ∃ k'', k' = k'' + 1 := ⟨k' - 1, by omega⟩
   obtain ⟨bpos, st2, hst2, heq⟩ := exprLoop_bin pf T (F := k'') (p := p) (e := a') hst1 hlvl
-  obtain ⟨rb, st3, h3, heb, h3a⟩ := hB (binPrec op + 1) tb h rest (binPrec op) 1 k'' (Post b (h :: rest)) st2 hSb (by omega)
+  obtain ⟨rb, st3, h3, heb, h3a⟩ := hB (rightMin op) tb h rest (rightMin op - 1) 1 k'' (Post b (h :: rest)) st2 hSb (Nat.le_refl _)
     (fun hp => okAfter_right hok hp) (cont_stop pf (stops_right hok)) hst2 (by omega)
   obtain ⟨r, st4, h4, hQ⟩ := hC k'' (.bin op bpos a' rb) st3 (by omega) (by simp [erase, hea, heb]) h3a.at
   refine ⟨r, st4, ?_, hQ⟩
@@ -492,14 +532,14 @@ theorem b_tern (pos : Nat) {c a b : Expr} (hCc : AStmt pf c) (hA : AStmt pf a) (
   subst hp0
   have hst' : At st (tc ++ tTernIf :: (ta ++ tColon :: (tb ++ h :: rest))) := by simpa using hst
   simp at hF
-  refine hCc precElvis tc tTernIf (ta ++ tColon :: (tb ++ h :: rest)) 0 (k + 3 + 8 * ta.length + 8 * tb.length) F Q st hSc
+  refine hCc (precElvis + 1) tc tTernIf (ta ++ tColon :: (tb ++ h :: rest)) 0 (k + 3 + 8 * ta.length + 8 * tb.length) F Q st hSc
     (Nat.zero_le _) (fun hp => okAfter_cond T hp) ?_ hst' (by omega)
   intro k' c' st1 hk' hec hst1
   obtain ⟨k'', rfl⟩ : ∃ k'', k' = k'' + 1 := ⟨k' - 1, by omega⟩
   obtain ⟨k3, rfl⟩ : ∃ k3, k'' = k3 + 1 := ⟨k'' - 1, by omega⟩
   obtain ⟨st2, hst2, heq⟩ := exprLoop_tern pf T (F := k3 + 1) (e := c') hst1
   obtain ⟨ra, st3, h3, hea, h3a⟩ := hA precElvis ta tColon (tb ++ h :: rest) 0 1 k3 (Post a (tColon :: (tb ++ h :: rest))) st2 hSa
-    (Nat.zero_le _) (fun hp => okAfter_colon T hp) (cont_stop pf (stops_colon T 0)) hst2 (by omega)
+    (Nat.zero_le _) (fun _ => okAfter_colon T a) (cont_stop pf (stops_colon T 0)) hst2 (by omega)
   obtain ⟨it4, st4, h4, _, _, hj4⟩ := expect_at h3a.at
   obtain ⟨rb, st5, h5, heb, h5a⟩ := hB 0 tb h rest 0 1 k3 (Post b (h :: rest)) st4 hSb
     (Nat.zero_le _) (fun _ => okAfter_else hok) (cont_stop pf (stops_else hok)) hj4.at (by omega)
